@@ -132,67 +132,7 @@ func runC03(c *Check) {
 		}
 	})
 
-	c.Rule("C03.SESSION", func() {
-		fn := p.MustFunc("(*dcs.zkDCS).handleSessionEvent")
-		fa := p.FA(fn)
-		name := p.Name(fn)
-		hasSession, ok := p.pkgConst("github.com/go-zookeeper/zk", "StateHasSession")
-		if !ok {
-			panic(AnchorError{"zk.StateHasSession"})
-		}
-		isHas := CmpLit("==", func(t *Term) bool { return t.IsField("State") }, func(t *Term) bool { return t.IsConst(hasSession) })
-		found := false
-		for _, b := range fn.Blocks {
-			for si := range b.Succs {
-				for _, l := range fa.EdgeLits(b, si) {
-					if isHas(Lit{l.T, !l.Pos}) { // edge on which State != StateHasSession
-						found = true
-						path, _ := fa.ReachFromEdge(b, si, func(in ssa.Instruction) bool {
-							_, isRet := in.(*ssa.Return)
-							_, isCall := in.(ssa.CallInstruction)
-							return isRet || (isCall && !isCallTo(p, "(*sync.Map).Clear")(in))
-						}, ReachOpts{Barrier: isCallTo(p, "(*sync.Map).Clear")})
-						c.Req(path == nil, name, p.InstrPos(blockIf(b)), "edge State!=StateHasSession",
-							"on every non-connected session event the lock cache is cleared first (before any other call or return)", "path: "+fa.PathString(path))
-					}
-				}
-			}
-		}
-		if !found {
-			c.Fail(name, "-", "edge State!=StateHasSession", "the session handler distinguishes StateHasSession", "no comparison ev.State == zk.StateHasSession found")
-		}
-		// the event loop forwards every session event
-		loop := p.MustFunc("(*dcs.zkDCS).handleEvents")
-		lfa := p.FA(loop)
-		evSession, _ := p.pkgConst("github.com/go-zookeeper/zk", "EventSession")
-		isSess := CmpLit("==", func(t *Term) bool { return t.IsField("Type") }, func(t *Term) bool { return t.IsConst(evSession) })
-		calls := p.Calls(loop, "(*dcs.zkDCS).handleSessionEvent")
-		c.Req(len(calls) > 0, p.Name(loop), "-", "forward", "the event loop calls the session handler", "no call")
-		for _, b := range loop.Blocks {
-			for si := range b.Succs {
-				for _, l := range lfa.EdgeLits(b, si) {
-					if isSess(l) {
-						path, _ := lfa.ReachFromEdge(b, si, func(in ssa.Instruction) bool {
-							if _, ok := in.(*ssa.Return); ok {
-								return true
-							}
-							if u, ok := in.(*ssa.UnOp); ok && u.Op.String() == "<-" {
-								return true
-							}
-							return false
-						}, ReachOpts{Barrier: isCallTo(p, "(*dcs.zkDCS).handleSessionEvent")})
-						c.Req(path == nil, p.Name(loop), p.InstrPos(blockIf(b)), "edge Type==EventSession",
-							"every session event reaches the session handler before the next receive", "path: "+lfa.PathString(path))
-					}
-				}
-			}
-		}
-		// no other condition may skip a session event: the handler call is gated only by the type test
-		for _, ci := range calls {
-			ok, _ := lfa.Gated(ci, isSess)
-			c.Req(ok, p.Name(loop), p.InstrPos(ci), "call handleSessionEvent", "the forward is selected by ev.Type == EventSession", "")
-		}
-	})
+	c.Rule("C03.SESSION", func() { checkSessionCache(c) })
 
 	c.Rule("C03.REL", func() {
 		fn := p.MustFunc("(*dcs.zkDCS).ReleaseLock")
@@ -436,4 +376,69 @@ func checkRecheck(c *Check) {
 			c.Req(ok2, name, p.InstrPos(ci), nthKey("post-catchup "+p.CalleeNames(ci)[0], n), "every mutating call after the catch-up wait is below the second lock re-check", "path: "+fa.PathString(path))
 		}
 	}
+}
+
+// checkSessionCache: the lock cache is dropped on every non-connected session event and every session event
+// reaches the handler (shared by C03.SESSION and C15.SESSION).
+func checkSessionCache(c *Check) {
+	p := c.p
+		fn := p.MustFunc("(*dcs.zkDCS).handleSessionEvent")
+		fa := p.FA(fn)
+		name := p.Name(fn)
+		hasSession, ok := p.pkgConst("github.com/go-zookeeper/zk", "StateHasSession")
+		if !ok {
+			panic(AnchorError{"zk.StateHasSession"})
+		}
+		isHas := CmpLit("==", func(t *Term) bool { return t.IsField("State") }, func(t *Term) bool { return t.IsConst(hasSession) })
+		found := false
+		for _, b := range fn.Blocks {
+			for si := range b.Succs {
+				for _, l := range fa.EdgeLits(b, si) {
+					if isHas(Lit{l.T, !l.Pos}) { // edge on which State != StateHasSession
+						found = true
+						path, _ := fa.ReachFromEdge(b, si, func(in ssa.Instruction) bool {
+							_, isRet := in.(*ssa.Return)
+							_, isCall := in.(ssa.CallInstruction)
+							return isRet || (isCall && !isCallTo(p, "(*sync.Map).Clear")(in))
+						}, ReachOpts{Barrier: isCallTo(p, "(*sync.Map).Clear")})
+						c.Req(path == nil, name, p.InstrPos(blockIf(b)), "edge State!=StateHasSession",
+							"on every non-connected session event the lock cache is cleared first (before any other call or return)", "path: "+fa.PathString(path))
+					}
+				}
+			}
+		}
+		if !found {
+			c.Fail(name, "-", "edge State!=StateHasSession", "the session handler distinguishes StateHasSession", "no comparison ev.State == zk.StateHasSession found")
+		}
+		// the event loop forwards every session event
+		loop := p.MustFunc("(*dcs.zkDCS).handleEvents")
+		lfa := p.FA(loop)
+		evSession, _ := p.pkgConst("github.com/go-zookeeper/zk", "EventSession")
+		isSess := CmpLit("==", func(t *Term) bool { return t.IsField("Type") }, func(t *Term) bool { return t.IsConst(evSession) })
+		calls := p.Calls(loop, "(*dcs.zkDCS).handleSessionEvent")
+		c.Req(len(calls) > 0, p.Name(loop), "-", "forward", "the event loop calls the session handler", "no call")
+		for _, b := range loop.Blocks {
+			for si := range b.Succs {
+				for _, l := range lfa.EdgeLits(b, si) {
+					if isSess(l) {
+						path, _ := lfa.ReachFromEdge(b, si, func(in ssa.Instruction) bool {
+							if _, ok := in.(*ssa.Return); ok {
+								return true
+							}
+							if u, ok := in.(*ssa.UnOp); ok && u.Op.String() == "<-" {
+								return true
+							}
+							return false
+						}, ReachOpts{Barrier: isCallTo(p, "(*dcs.zkDCS).handleSessionEvent")})
+						c.Req(path == nil, p.Name(loop), p.InstrPos(blockIf(b)), "edge Type==EventSession",
+							"every session event reaches the session handler before the next receive", "path: "+lfa.PathString(path))
+					}
+				}
+			}
+		}
+		// no other condition may skip a session event: the handler call is gated only by the type test
+		for _, ci := range calls {
+			ok, _ := lfa.Gated(ci, isSess)
+			c.Req(ok, p.Name(loop), p.InstrPos(ci), "call handleSessionEvent", "the forward is selected by ev.Type == EventSession", "")
+		}
 }
